@@ -43,9 +43,16 @@ def IsWinner {V} (e : Elem V) (a : Args) (k' : Str) (n : Str) (v : V) : Prop :=
   (n, v) ∈ e ∧ outKey a n = some k' ∧
   ∀ n' v', (n', v') ∈ e → outKey a n' = some k' → n' = n ∨ strLt n' n = true
 
-/-- the attribute names `set_by_object` may look at: declared fields and names the renaming maps
-    to a declared field, minus the omitted ones -/
+/-- where an attribute's value is destined: the name the renaming gives it, else its own name -/
+def dest (a : Args) (x : Str) : Str :=
+  match renameTo a x with
+  | some t => t
+  | none => x
+
+/-- the attributes `set_by_object` looks at are the attributes whose destination is a declared
+    field; `omit` takes names out, except renamed ones ("attributes specified in the mapping will be
+    included regardless of include or omit") -/
 def readSet (fields : List Str) (a : Args) (x : Str) : Prop :=
-  (x ∈ fields ∨ ∃ f, renameTo a x = some f ∧ f ∈ fields) ∧ x ∉ a.om
+  dest a x ∈ fields ∧ ((renameTo a x).isSome = true ∨ x ∉ a.om)
 
 end Flatland.C20.Spec
